@@ -567,6 +567,21 @@ def install(E):
     reg(r'^core::slice::<impl \[.*\]>::(len|is_empty)$', h_len)
     reg(r'^(?:std::vec::|alloc::vec::)?Vec::<.*>::(len|is_empty)$', h_len)
 
+    def h_slice_get(E, m, func, argv, guard, mem, dty, caller):
+        """<[T]>::get / get_mut with a usize index -> Option<&T>"""
+        r, s = seq_ref(E, argv[0], mem, guard)
+        if isinstance(s, Seq) and not s.prefix:
+            return NotImplemented
+        idx = argv[1]
+        if not isinstance(idx, I):
+            return NotImplemented
+        n = seq_len(s)
+        inb = simp(zint(idx.t) < zint(n)) if not (isinstance(idx.t, int) and isinstance(n, int)) else (idx.t < n)
+        if inb is False:
+            return En('Option', 0, {})
+        return En('Option', 1 if inb is True else If(inb, 1, 0), {1: [Ref(r.cell, r.path + (('i', idx.t),))]})
+    reg(r'^core::slice::<impl \[.*\]>::(get|get_mut)::<usize>$', h_slice_get)
+
     def h_first_last(E, m, func, argv, guard, mem, dty, caller):
         """<[T]>::first / last -> Option<&T> (prefix sequences only)"""
         r, s = seq_ref(E, argv[0], mem, guard)
